@@ -72,7 +72,7 @@ def generate(rng, tier, idx):
         sc['pace'] = gen_pace(rng, sc['has_header'])
         return sc
     if r < 0.0415:
-        # very many short records (more than 2^17) handed over in one piece or in a few large same-tick chunks: sizes at which
+        # very many short records (66 000 - 140 000) handed over in one piece or in a few large same-tick chunks: sizes at which
         # per-record work done with spread calls, recursion or repeated array copies starts to matter
         line = rng.choice(['1\n', 'a\r\n', '7\n', 'x,y\n'])
         count = rng.choice([66000, 131072 + 100, 131072 + 100, 140000])
@@ -281,7 +281,7 @@ def execute(sc):
     if jdata is not None:
         bump(counters, 'sched.two_readers_join_stream')
     if sc.get('many_records'):
-        bump(counters, 'sched.more_than_131072_records')
+        bump(counters, 'sched.more_than_65536_records_in_one_handover')
     if sc.get('tail_hex'):
         bump(counters, 'fault.input_ends_in_invalid_utf8')
     if sc['text'][:1] == '﻿':
